@@ -96,11 +96,11 @@ Definition k11_files : list file :=
   [mkf 97 1 65536 k11_d1; mkf 98 2 65536 k11_d1; mkf 99 3 65536 k11_d2; mkf 100 4 65536 k11_d2].
 Definition idT (d : list N) : option (list N) := Some d.
 
-Definition k11_check : bool :=
-  wf_ids_b k11_files && wf_len_b k11_files && cf_b toyH k11_cfg k11_files && K11_b k11_cfg k11_files &&
-  has_mixed_group (group_files toyH idT k11_cfg (nd_of_mode 0) k11_files).
-
-Lemma k11_check_true : k11_check = true.
+Lemma k11_ids : wf_ids_b k11_files = true. Proof. vm_compute. reflexivity. Qed.
+Lemma k11_len : wf_len_b k11_files = true. Proof. vm_compute. reflexivity. Qed.
+Lemma k11_cf : cf_b toyH k11_cfg k11_files = true. Proof. vm_compute. reflexivity. Qed.
+Lemma k11_k : K11_b k11_cfg k11_files = true. Proof. vm_compute. reflexivity. Qed.
+Lemma k11_mixed : has_mixed_group (group_files toyH idT k11_cfg (nd_of_mode 0) k11_files) = true.
 Proof. vm_compute. reflexivity. Qed.
 
 Lemma k11_witness :
@@ -110,14 +110,50 @@ Lemma k11_witness :
     ~ (forall g, In g (group_files H T c n scanned) -> forall f f', In f (gfiles g) -> In f' (gfiles g) ->
          fdata f = fdata f' /\ glen g = N.of_nat (length (fdata f))).
 Proof.
-  pose proof k11_check_true as Hc. unfold k11_check in Hc.
-  repeat (apply andb_true_iff in Hc; let Hx := fresh "Hx" in destruct Hc as [Hc Hx]).
   exists toyH, idT, k11_cfg, (nd_of_mode 0), k11_files.
-  split; [apply wf_nd_mode0|]. split; [apply wf_ids_b_sound; assumption|].
-  split; [apply wf_len_b_sound; assumption|]. split; [apply cf_b_sound; assumption|].
-  split; [reflexivity|]. split; [reflexivity|]. split; [apply K11_b_sound; assumption|].
+  split; [exact wf_nd_mode0|]. split; [exact (wf_ids_b_sound _ k11_ids)|].
+  split; [exact (wf_len_b_sound _ k11_len)|]. split; [exact (cf_b_sound _ _ _ k11_cf)|].
+  split; [reflexivity|]. split; [reflexivity|]. split; [exact (K11_b_sound _ _ k11_k)|].
   intros Hall.
-  match goal with Hm : has_mixed_group _ = true |- _ => apply has_mixed_group_spec in Hm;
-    destruct Hm as (g & f & f' & Hg & Hf & Hf' & Hne) end.
-  apply Hne. apply (Hall g Hg f f' Hf Hf').
+  destruct (has_mixed_group_spec _ k11_mixed) as (g & f & f' & Hg & Hf & Hf' & Hne).
+  apply Hne. exact (proj1 (Hall g Hg f f' Hf Hf')).
 Qed.
+
+(* ------------------------------------------------------------------ small non-vacuity instances *)
+(* three 6-byte files, two equal and one differing in the last byte, prefix length 4 < 6: the pair is
+   only separated from the third by the contents stage *)
+Definition ex_cfg : gcfg := mkcfg (Some 4) None (fun _ => SSD) (Over 1) [] true false false 0 None.
+Definition ex_files : list file :=
+  [mkf 97 1 6 [1;2;3;4;5;6]; mkf 98 2 6 [1;2;3;4;5;6]; mkf 99 3 6 [1;2;3;4;5;7]; mkf 100 3 6 [1;2;3;4;5;7]].
+Definition shows (gs : list group) : list (N * list path) := map (fun g => (glen g, map fpath (gfiles g))) gs.
+
+Lemma ex_ids : wf_ids_b ex_files = true. Proof. vm_compute. reflexivity. Qed.
+Lemma ex_len : wf_len_b ex_files = true. Proof. vm_compute. reflexivity. Qed.
+Lemma ex_cf : cf_b toyH ex_cfg ex_files = true. Proof. vm_compute. reflexivity. Qed.
+Lemma ex_notK11 : ~ K11 ex_cfg ex_files.
+Proof. intros (p & s & f & _ & E & _). discriminate. Qed.
+Lemma ex_output : shows (group_files toyH idT ex_cfg (nd_of_mode 0) ex_files) = [(6, [[[47]; [97]]; [[47]; [98]]])].
+Proof. vm_compute. reflexivity. Qed.
+
+(* the same files under a transform that keeps the first 5 bytes: all four become equal *)
+Definition ex_cfgT : gcfg := mkcfg None None (fun _ => SSD) (Over 1) [] true false true 0 None.
+Definition head5 (d : list N) : option (list N) := Some (firstn 5 d).
+Definition cfT_b (H : list N -> hash) (T : list N -> option (list N)) (fs : list file) : bool :=
+  forallb (fun f => forallb (fun f' =>
+    match T (fdata f), T (fdata f') with
+    | Some a, Some b => implb (Nat.eqb (length a) (length b) && bytes_eqb (H a) (H b)) (bytes_eqb a b)
+    | _, _ => true
+    end) fs) fs.
+Lemma cfT_b_sound H T fs : cfT_b H T fs = true -> collision_free_T H T fs.
+Proof.
+  unfold cfT_b. intros Hb f f' out out' Hf Hf' E E' El Eh.
+  rewrite forallb_forall in Hb. specialize (Hb f Hf). rewrite forallb_forall in Hb. specialize (Hb f' Hf').
+  rewrite E, E' in Hb. apply bytes_eqb_spec. destruct (bytes_eqb out out'); auto. rewrite <- Hb. symmetry.
+  assert (E1 : Nat.eqb (length out) (length out') = true) by (apply Nat.eqb_eq; auto).
+  assert (E2 : bytes_eqb (H out) (H out') = true) by (apply bytes_eqb_spec; auto).
+  rewrite E1, E2. reflexivity.
+Qed.
+Lemma ex_cfT : cfT_b toyH head5 ex_files = true. Proof. vm_compute. reflexivity. Qed.
+Lemma ex_outputT : shows (group_files toyH head5 ex_cfgT (nd_of_mode 0) ex_files)
+                   = [(5, [[[47]; [97]]; [[47]; [98]]; [[47]; [99]]; [[47]; [100]]])].
+Proof. vm_compute. reflexivity. Qed.
